@@ -7,6 +7,7 @@ import (
 	"fmt"
 	"sort"
 	"strconv"
+	"strings"
 
 	"github.com/robfig/soy/data"
 )
@@ -741,6 +742,9 @@ func (n *ListLiteralNode) Children() []Node {
 	return n.Items
 }
 
+// stringEscaper escapes what a Soy string literal cannot hold verbatim.
+var stringEscaper = strings.NewReplacer(`\`, `\\`, `'`, `\'`, "\n", `\n`, "\r", `\r`, "\t", `\t`, "\b", `\b`, "\f", `\f`)
+
 type MapLiteralNode struct {
 	Pos
 	Items map[string]Node
@@ -762,7 +766,7 @@ func (n *MapLiteralNode) String() string {
 		if i > 0 {
 			expr += ", "
 		}
-		expr += fmt.Sprintf("'%s': %s", k, n.Items[k].String())
+		expr += "'" + stringEscaper.Replace(k) + "': " + n.Items[k].String()
 	}
 	return expr + "]"
 }
